@@ -293,7 +293,7 @@ def main(argv=None):
                 it["raise"] = rng.choice(sym)
             items.append(it)
 
-    n_small, n_thl, n_mid = (14, 10, 4) if q else (150, 120, 60)
+    n_small, n_thl, n_mid = (20, 12, 6) if q else (150, 120, 80)
     for _ in range(n_small):
         algo = rng.choice(["ext_spfs", "superdtl", "base_spfs", "base_uspfs", "thl"])
         ordered = D.ORDERED.get(algo, rng.random() < 0.5)
@@ -309,7 +309,7 @@ def main(argv=None):
         add(SR.random_super_input(rng, rng.randint(4, 5), rng.randint(3, 4), rng.randint(2, 4 if algo != "ext_spfs" else 3), D.ORDERED[algo]), algo, 2, "dhs")
     names = ["2-3 leaves, five symbolic costs, all solvers", "thl 5-10 object leaves / 3-8 species", "super solvers 4-5 leaves, dup/hgt/sloss symbolic"]
     order = sorted(range(len(items)), key=lambda i: -(items[i]["section"] == 2) * 1000 - len(str(items[i]["desc"]["ot"])))
-    res, sk = R.run_sharded(worker, [items[i] for i in order], 110 if q else 2400)
+    res, sk = R.run_sharded(worker, [items[i] for i in order], 170 if q else 3000)
     for si, nm in enumerate(names):
         mine = [r for r in res if r.get("section") == si]
         rep.add_results(nm, mine, sum(1 for it in items if it["section"] == si) - len(mine), exhaustive=False)
